@@ -522,13 +522,16 @@ argument
 argument_list
     :	new_arg
         {
-            $$.num_arg = 1;
+            /* an argument that add_local_name() refused ("Too many local
+             * variables") does not exist: max_num_locals counts the ones
+             * that do, and is what type_of_locals_ptr[] holds types for */
+            $$.num_arg = (short)max_num_locals;
             $$.flags = (char)$1;
         }
     |   argument_list ',' new_arg
         {
             $$ = $1;
-            $$.num_arg++;
+            $$.num_arg = (short)max_num_locals;
             $$.flags |= $3;
         }
     ;
